@@ -56,6 +56,7 @@ type Scenario struct {
 	Dup       int      `json:"dup,omitempty"`
 	UDPSize   int      `json:"udp_size,omitempty"`
 	Decorate  bool     `json:"decorate,omitempty"`
+	Junk      int      `json:"junk,omitempty"` // datagrams the server must drop or refuse (QR set, unsupported opcode, short), sent by a stranger between the exchanges
 	Clients   []Client `json:"clients,omitempty"`
 
 	// framing
@@ -136,6 +137,9 @@ func Gen(seed uint64, tier string) any {
 	sc.Dup = core.Pick(r, 0, 0, 20)
 	sc.UDPSize = core.Pick(r, 512, 1232, 4096, 65535)
 	sc.Decorate = core.Chance(r, 30)
+	if core.Chance(r, 35) {
+		sc.Junk = 1 + r.IntN(6)
+	}
 	maxc, maxe := 4, 3
 	if tier == "thorough" {
 		maxc, maxe = 8, 6
@@ -246,6 +250,7 @@ func Shrink(x any) []any {
 	num(func(n *Scenario) *int { return &n.Dup })
 	num(func(n *Scenario) *int { return &n.Strategy })
 	num(func(n *Scenario) *int { return &n.Window })
+	num(func(n *Scenario) *int { return &n.Junk })
 	if sc.Decorate {
 		n := cp()
 		n.Decorate = false
@@ -751,6 +756,40 @@ func (x *run) fin(b *bool) {
 	x.k.Unlock()
 }
 
+// junkTask is a stranger that sends the UDP server datagrams it must not hand
+// to the handler: responses, unsupported opcodes, fragments shorter than a header.
+type junkTask struct{ x *run }
+
+//go:norace
+func (j *junkTask) RunEvent(time.Time) {
+	x, k := j.x, j.x.k
+	for i := 0; i < x.sc.Junk; i++ {
+		k.WaitSteps("junk.wait", 3+i*5, 2*time.Millisecond)
+		m := new(dns.Msg)
+		m.SetQuestion("junk.test.", dns.TypeA)
+		m.Id = uint16(50000 + i)
+		var b []byte
+		switch (int(x.sc.RunSeed) + i) % 4 {
+		case 0:
+			m.Response = true
+			b, _ = m.Pack()
+		case 1:
+			m.Opcode = dns.OpcodeUpdate
+			b, _ = m.Pack()
+		case 2:
+			b, _ = m.Pack()
+			b = b[:12]
+			b[2] |= 0x80 // a bare header with QR set
+		default:
+			b = []byte{0xc3, 0x50, 0x80}
+		}
+		k.Lock()
+		x.n.InjectToServer(x.pc, simnet.Addr{N: "udp", S: "10.9.9.9:999"}, b, time.Millisecond)
+		k.BumpLocked("fault.junk_datagram")
+		k.Unlock()
+	}
+}
+
 type serveTask struct {
 	x *run
 	s *dns.Server
@@ -859,6 +898,9 @@ func runExchange(sc *Scenario, res *core.Result, verbose bool) {
 	for ci := range sc.Clients {
 		k.Go("client"+strconv.Itoa(ci), &clientTask{x, ci})
 	}
+	if sc.Junk > 0 {
+		k.Go("junk", &junkTask{x})
+	}
 	out := k.Run(doneCheck{x})
 	res.Steps = k.Steps
 	res.SimNS = int64(time.Since(start0))
@@ -888,6 +930,15 @@ func (x *run) judgeRun(outcome string) {
 	case kernel.Quiescent:
 		res.Fail("X0", "stuck", "the run cannot make progress: parked %v", x.k.Parked())
 		return
+	}
+	// B1: the server always offers a receive buffer of UDPSize octets, whatever
+	// passed through the buffer pool before
+	for _, d := range x.pc.Received {
+		res.Bump("oracle.B1_receive_buffer_size")
+		if d.TruncRead && len(d.Data) <= sc.UDPSize {
+			res.Fail("B1", "datagram-truncated-by-recycled-buffer", "a %d-octet datagram was cut to %d octets by the server's read although UDPSize is %d: a recycled receive buffer was offered short", len(d.Data), len(d.Seen), sc.UDPSize)
+			return
+		}
 	}
 	// conservation: handler invocations per request = delivered copies
 	delivered := map[string]int{}
